@@ -151,6 +151,9 @@ func runC13(c *fw.Ctx) {
 		// out because it is not deep-equal to itself)
 		L(spec.FloatV(math.Inf(1)), spec.FloatV(math.Inf(-1)), O("k", spec.FloatV(math.Inf(1)), "l", L(spec.FloatV(math.Inf(-1)))), spec.FloatV(math.MaxFloat64), spec.FloatV(5e-324), spec.FloatV(math.Copysign(0, -1))),
 		O("inf", spec.FloatV(math.Inf(1)), "ninf", spec.FloatV(math.Inf(-1)), "max", spec.FloatV(-math.MaxFloat64)),
+		// strings are byte strings to the native conversions: ill-formed UTF-8 in values and keys goes through unchanged
+		L(spec.StrV("\xff"), spec.StrV("a\xc3"), spec.StrV("\xed\xa0\x80"), spec.StrV("ok\x80ok"), O("k", spec.StrV("\xfe\xff"), "\xc3", spec.StrV("v"), "l", L(spec.StrV("\xf0\x9f")))),
+		O("\xff", spec.StrV("\xff"), "plain", L(spec.StrV("\x80"), spec.StrV(""), spec.StrV("\x00"))),
 	}
 	c.Cases("pinned", len(pins), true, func(i int, r *rng.R) { c13Case(c, r, pins[i]) })
 	historyCases(c, "history", 600, 60000, probeNative)
